@@ -109,6 +109,46 @@ func C13(tier string) {
 			}
 		}
 
+		// near-neutral colours: multiples of the white with one component nudged,
+		// and Lab values with tiny a*, b*
+		for _, k := range []float32{0.05, 0.18, 0.5, 0.9, 1, 1.5} {
+			for _, d := range []float32{1e-6, 3e-6, 1e-5, 2.6e-5, 1e-4, 3e-4, 1e-3, 1e-2} {
+				for axn := 0; axn < 3; axn++ {
+					for _, sgn := range []float32{-1, 1} {
+						c := ciexyz.Color{X: k * w.X, Y: k * w.Y, Z: k * w.Z}
+						switch axn {
+						case 0:
+							c.X *= 1 + sgn*d
+						case 1:
+							c.Y *= 1 + sgn*d
+						default:
+							c.Z *= 1 + sgn*d
+						}
+						checkXYZ(c, w)
+						r.Eval(1)
+					}
+				}
+			}
+		}
+		for _, L := range []float32{-5, 0, 4, 8, 8.5, 20, 50, 51, 75, 95, 100, 105} {
+			tiny := []float32{0, 1e-4, -1e-4, 1e-3, -1e-3, 4e-3, -4.5e-3, 6e-3, 0.01, -0.02, 0.1, -0.3}
+			for _, A := range tiny {
+				for _, B := range tiny {
+					got := ciexyz.ColorFromLAB(cielab.Color{L: L, A: A, B: B}, w)
+					ref := refs.LabToXYZ(refs.V3{float64(L), float64(A), float64(B)}, xyzV(w))
+					g := xyzV(got)
+					r.Eval(1)
+					for q := 0; q < 3; q++ {
+						if !(math.Abs(g[q]-ref[q]) <= 1e-5*math.Max(1, math.Abs(ref[q]))) {
+							r.Violate("ColorFromLAB/near-neutral", fmt.Sprintf("ColorFromLAB(%g,%g,%g, white %v) = %v, CIE inverse gives (%.7f, %.7f, %.7f)", L, A, B, w, got, ref[0], ref[1], ref[2]),
+								map[string]interface{}{"lab": []float32{L, A, B}, "white": []float32{w.X, w.Y, w.Z}}, nil)
+							break
+						}
+					}
+				}
+			}
+		}
+
 		// junction window on each axis: every float32 with ratio in eps +/- 1e-6
 		for axn := 0; axn < 3; axn++ {
 			wc := []float32{w.X, w.Y, w.Z}[axn]
